@@ -82,6 +82,11 @@ class Gen:
             return [self.r.choice(["and", "or"]), self.cond(d - 1), self.cond(d - 1)]
         if d > 0 and r < 0.32:
             return ["not", self.cond(d - 1)]
+        if r < 0.40:
+            # expressions that BEGIN and END with a quote character without being one string literal
+            if self.r.random() < 0.5:
+                return ["tq", [self.r.choice(CMPS), self.arith(1), self.arith(1)]]  # "y" if <cmp> else ""
+            return ["sv", self.r.choice(["T", "F"]), self.r.choice(["T", "F"])]  # "T" == $s or $s == "F"
         return [self.r.choice(CMPS), self.arith(1), self.arith(1)]
 
     def bot(self):
@@ -97,8 +102,11 @@ class Gen:
             p = r.random()
             if p < 0.27:
                 out.append(self.bot())
-            elif p < 0.41:
+            elif p < 0.37:
                 out.append(["set", r.choice("xyz"), self.arith(1)])
+            elif p < 0.41:
+                # a string-valued assignment whose right-hand side begins and ends with a quote: $s = "T" if <cmp> else "F"
+                out.append(["set", "s", ["ts", [r.choice(CMPS), self.arith(1), self.arith(1)]]])
             elif p < 0.56 and d > 0:
                 arms = [[self.cond(1), self.block(d - 1, loop, user, 1, 3)] for _ in range(r.choice([1, 1, 1, 2, 3]))]
                 els = self.block(d - 1, loop, user, 1, 3) if r.random() < 0.55 else None
@@ -146,7 +154,7 @@ def gen_program(rng, depth):
     flows = []
     for j in range(rng.choice([1, 2, 2, 3, 3, 4])):
         lead = g.tok("i")
-        init = [["set", v, ["lit", rng.randint(0, 3)]] for v in "xyz"]
+        init = [["set", v, ["lit", rng.randint(0, 3)]] for v in "xyz"] + [["set", "s", ["str", rng.choice(["T", "F"])]]]
         body = init + g.block(depth, False, True, 1, 4)
         if rng.random() < 0.5:
             body.append(["user", g.tok("i")])
@@ -201,7 +209,15 @@ def rx(e, top=True):
         return str(e[1])
     if k == "var":
         return "$" + e[1]
-    if k == "not":
+    if k == "str":
+        return '"%s"' % e[1]
+    if k == "tq":
+        s = '"y" if %s else ""' % rx(e[1], False)
+    elif k == "ts":
+        s = '"T" if %s else "F"' % rx(e[1], False)
+    elif k == "sv":
+        s = '"%s" == $s or $s == "%s"' % (e[1], e[2])
+    elif k == "not":
         s = "not " + rx(e[1], False)
     else:
         s = "%s %s %s" % (rx(e[1], False), k, rx(e[2], False))
@@ -262,6 +278,14 @@ def ev(e, ctx):
         return e[1]
     if k == "var":
         return ctx[e[1]]
+    if k == "str":
+        return e[1]
+    if k == "tq":
+        return "y" if ev(e[1], ctx) else ""
+    if k == "ts":
+        return "T" if ev(e[1], ctx) else "F"
+    if k == "sv":
+        return e[1] == ctx["s"] or ctx["s"] == e[2]
     if k == "not":
         return not ev(e[1], ctx)
     if k == "and":
